@@ -54,6 +54,32 @@ pub fn install_panic_hook() {
         default(info);
     }));
 }
+/// heartbeat of the driver: what it was about to ask of the node, and when.  A node call that does not come back (an endless loop
+/// in the selector, a dead lock between the pool's tasks) would otherwise hang the harness until the check's time limit.
+pub static WATCH: std::sync::Mutex<Option<(std::time::Instant, String)>> = std::sync::Mutex::new(None);
+pub const NODE_CALL_LIMIT_SECS: u64 = 300;
+pub fn heartbeat(what: &str) { if let Ok(mut w) = WATCH.lock() { *w = Some((std::time::Instant::now(), what.to_string())); } }
+pub fn heartbeat_off() { if let Ok(mut w) = WATCH.lock() { *w = None; } }
+pub fn start_watchdog(out: std::path::PathBuf, prop: String, seed: u64) {
+    std::thread::spawn(move || loop {
+        std::thread::sleep(std::time::Duration::from_secs(5));
+        let stuck = { let w = WATCH.lock().unwrap(); w.as_ref().and_then(|(t, c)| if t.elapsed().as_secs() > NODE_CALL_LIMIT_SECS { Some(c.clone()) } else { None }) };
+        if let Some(what) = stuck {
+            let summary = json!({
+                "property": prop, "seed": seed, "evaluations": 1, "distinct_nontrivial": 1,
+                "rule": "watchdog: the node did not answer",
+                "distribution": {}, "samples": [],
+                "impl_violations": [{
+                    "what": format!("the node did not come back within {} s from what the driver asked of it (an endless loop or a dead lock in the pool / block assembler)", NODE_CALL_LIMIT_SECS),
+                    "detail": {"last_request": what, "history_so_far": crate::node::last_history()}}],
+            });
+            let _ = std::fs::write(out.join("summary.json"), serde_json::to_string_pretty(&summary).unwrap());
+            println!("hx-poolchain: watchdog — the node did not answer within {} s: {}", NODE_CALL_LIMIT_SECS, what);
+            std::process::exit(0);
+        }
+    });
+}
+
 /// set once the current history has put the pool into one of the situations C11's recorded defects start from
 /// (a re-added transaction with a child handed to the pool; an expired inner node; aggregates seen stale)
 pub static C11_SITUATION: std::sync::atomic::AtomicBool = std::sync::atomic::AtomicBool::new(false);
@@ -506,6 +532,7 @@ impl World {
     }
 
     pub fn template(&mut self) -> Option<BlockTemplate> {
+        heartbeat("get_block_template");
         match self.node.pool().get_block_template(None, None, None) {
             Ok(Ok(t)) => Some(t),
             other => {
